@@ -85,7 +85,7 @@ static void spec_env_at(int site, void* addr) {
 }
 static void spec_read(int site, void* addr) {
   /* ownership: the only cell of the buffer an operation touches is the slot of the index it read */
-  if ((char*)addr >= (char*)&RB->buffer[0] && (char*)addr < (char*)&RB->buffer[RB->size])
+  if (__CPROVER_same_object(addr, &RBS) && (char*)addr >= (char*)&RB->buffer[0] && (char*)addr < (char*)&RB->buffer[RB->size])
     VASSERT(HAVE_MY && addr == (void*)&SLOT(MYIDX), "O: a buffer access goes to the slot of the index I read");
   if (addr == (void*)&RB->low && !G.have_lo) { G.have_lo = 1; G.lo = CUR_L; }
   else if (addr == (void*)&RB->high && !G.have_hi) { G.have_hi = 1; G.hi = CUR_H; }
